@@ -2,6 +2,7 @@
 mod astjson;
 mod engine;
 mod conv;
+mod ctxapi;
 mod describe;
 mod eval;
 mod valjson;
@@ -36,6 +37,8 @@ fn main() {
         "conv-record" => conv::record(rest),
         "conv-replay" => conv::replay(rest),
         "conv-one" => conv::one(rest),
+        "ctxapi-replay" => ctxapi::replay(rest),
+        "ctxapi-record" => ctxapi::record(rest),
         "describe-child" => describe::child(rest),
         "describe-replay" => describe::replay(rest),
         "describe-record" => describe::record(rest),
